@@ -107,12 +107,39 @@ func c09(r *core.Run) {
 					return
 				}
 				nDelB++
-				paid := false
-				for _, bo := range p.BankOps(fn) {
-					if bo.Method == "SendCoinsFromModuleToAccount" && onlyStoreField(rnsBids, ".Price")(p.ProvAt(bo.Args[2], "", bo.Instr)) && precedesAlways(fn, bo.Instr, call) {
-						paid = true
+				funcs := p.Summary(h.Fn).Funcs
+				var paidBefore func(fn *ssa.Function, at ssa.Instruction, depth int) bool
+				paidBefore = func(fn *ssa.Function, at ssa.Instruction, depth int) bool {
+					for _, bo := range p.BankOps(fn) {
+						if bo.Method == "SendCoinsFromModuleToAccount" && onlyStoreField(rnsBids, ".Price")(p.ProvAt(bo.Args[2], "", bo.Instr)) && precedesAlways(fn, bo.Instr, at) {
+							return true
+						}
 					}
+					if fn == h.Fn || depth > 3 {
+						return false
+					}
+					// the payout may precede the call of this helper in every caller
+					n := 0
+					all := true
+					for _, caller := range funcs {
+						allInstrs(caller, func(in2 ssa.Instruction) {
+							cs, ok := in2.(ssa.CallInstruction)
+							if !ok {
+								return
+							}
+							for _, c := range p.Callees(cs) {
+								if c == fn {
+									n++
+									if !paidBefore(caller, cs, depth+1) {
+										all = false
+									}
+								}
+							}
+						})
+					}
+					return n > 0 && all
 				}
+				paid := paidBefore(fn, call, 0)
 				r.Check(paid, "C09/R6", fmt.Sprintf("%s:%s:bid-deleted-only-after-payout", h.Key(), fn.Name()), p.InstrPos(call), "the bid is deleted only after its recorded price has been paid out", "a bid record is deleted on a path that has not paid its escrow out (to the bidder or the seller): the tokens stay in the module account with no bid left to claim them")
 			})
 		}
@@ -319,7 +346,12 @@ func c09(r *core.Run) {
 			}
 		}
 		if getter != nil {
-			r.Check(sameArgs(p, getter, del), "C09/R4", key+":delete-key", p.InstrPos(del), "deleted key = loaded key", "the deleted bid is not the one that was paid out")
+			same := sameArgs(p, getter, del)
+			if !same {
+				gt, dt := keyTermsThrough(p, getter, "Get", rnsBids), keyTermsThrough(p, del, "Delete", rnsBids)
+				same = len(gt) > 0 && strings.Join(gt, "|") == strings.Join(dt, "|") && !strings.Contains(strings.Join(gt, "|"), "?")
+			}
+			r.Check(same, "C09/R4", key+":delete-key", p.InstrPos(del), "deleted key = loaded key", "the deleted bid is not the one that was paid out")
 		}
 	}
 }
